@@ -10,12 +10,16 @@
    (3) an invalid name in Rename gives a LinkError with both caller names (C04's gate);
    (4) through a generic Sub view and through a mount FS, failures of Stat/Mkdir/Remove/Chmod/Chtimes name the
        caller's path (view-relative; mount point + inner path).
-   NOT proved: Rename's other failures, MkdirAll/RemoveAll (which may name an ancestor/descendant), and the
+   (5) in EVERY state every failure of Rename is a LinkError: for a source that is not a directory it carries
+       exactly the caller's two names; for a directory it carries them or the old and new names of the
+       descendant whose move failed (both extended by the same relative path);
+   (6) in EVERY state the error of any operation on an open handle is io.EOF or a PathError.
+   NOT proved: MkdirAll/RemoveAll (which may name an ancestor/descendant), and the
    composition layers (mount, Sub, os, cache, tar): there the check compares full error values of the model
    (kv, mount, Sub) and of the os package with the implementation's on every generated failure.
    Known findings (harness): two precedence/ancestor differences from os, see known_findings.json. *)
 From HP Require Import Base.Prelude Base.Path KV.Types KV.FS KV.Handle KV.Run KV.GateProofs KV.TreeProofs KV.SpecProofs
-  Compose.Mount Compose.Sub Compose.ErrPaths.
+  KV.RenameErr KV.HandleErr Compose.Mount Compose.Sub Compose.ErrPaths.
 Open Scope N_scope.
 
 Theorem C05_stat_failure_names_the_callers_path : forall st p e, snd (kv_stat st p) = inr e -> names_path p e.
@@ -107,6 +111,27 @@ Theorem C05_rename_invalid_name_is_a_link_error : forall st a b,
   snd (step st (Rename a b)) = VErr (LinkErr a b EINVAL).
 Proof. intros st a b H. apply gate_rename. exact H. Qed.
 Print Assumptions C05_rename_invalid_name_is_a_link_error.
+
+(* Rename: every failure, in every state, is a LinkError.  [kv_rename fuel] with fuel = 0 is the model's
+   out-of-fuel marker (never reached from [step], whose fuel exceeds the number of records; the per-run
+   correspondence would show it), hence the first disjunct of [typed]. *)
+Theorem C05_rename_failure_is_a_link_error : forall fuel st o n e,
+  snd (kv_rename fuel st o n) = Some e ->
+  e = Bare EOTHER \/ exists o' n' c, under o n o' n' /\ e = LinkErr o' n' c.
+Proof. exact kv_rename_err_typed. Qed.
+Print Assumptions C05_rename_failure_is_a_link_error.
+
+Theorem C05_file_rename_failure_names_both_callers_names : forall fuel st o n e,
+  (forall f, snd (get_file st o) = inl f -> is_dir (f_mode f) = false) ->
+  snd (kv_rename (Datatypes.S fuel) st o n) = Some e -> exists c, e = LinkErr o n c.
+Proof. exact kv_rename_file_err_typed. Qed.
+Print Assumptions C05_file_rename_failure_names_both_callers_names.
+
+(* handles: Read/ReadAt/Write/WriteAt/Seek/Truncate/Stat/ReadDir/Chmod/Sync/Close through any wrapper *)
+Theorem C05_handle_failure_is_eof_or_a_path_error : forall st i o e,
+  res_err (snd (hstep st i o)) = Some e -> e = Bare EEOF \/ exists p c, e = PathErr p c.
+Proof. exact hstep_err_typed. Qed.
+Print Assumptions C05_handle_failure_is_eof_or_a_path_error.
 
 Example C05_nonvacuous :
   snd (step kv_init (Mkdir (S "a/b") 493)) = VErr (PathErr (S "a/b") ENOENT)
